@@ -157,3 +157,83 @@ V_ENSURES(V_IMP(V_G_MOD(mod) && !(g_mod->flags & M_MOD_DENY_SUB) && topic != NUL
                 V_RET == g_regcomp_ret && g.memnew_calls == 0 && g.mapput_calls == 0))                                                         /*@C09.invalid-pattern-leaves-no-trace*/
 ;
 #endif
+
+#ifdef V_ROUTE_UNIT
+/* routing of a system notification (tell_system_pubsub_msg -> tell_pubsub_msg): to the one recipient if given, else to the subscribers of its topic */
+V_CONTRACT
+static int tell_if(void *data, const char *key, void *value)
+V_REQUIRES(data != NULL && V_R_OK(data, sizeof(ps_priv_t)))
+V_ASSIGNS(g.tellif_calls, g.route_key, g.route_to, g.route_system, g.route_sender, g.route_topic, g.route_data)
+V_ENSURES(V_RET == 0 && g.tellif_calls == V_OLD(g.tellif_calls) + 1 && g.route_key == (const void *)key && g.route_to == (const void *)value && g.route_system == ((ps_priv_t *)data)->msg.system
+          && g.route_sender == (const void *)((ps_priv_t *)data)->msg.sender && g.route_topic == ((ps_priv_t *)data)->msg.topic && g.route_data == ((ps_priv_t *)data)->msg.data)
+;
+V_CONTRACT
+static void tell_subscribers(void *data, void *value)
+V_REQUIRES(data != NULL && V_R_OK(data, sizeof(ps_priv_t)) && value == (void *)g_ctx)
+V_ASSIGNS(g.tellsubs_calls, g.route_system, g.route_sender, g.route_topic, g.route_data)
+V_ENSURES(g.tellsubs_calls == V_OLD(g.tellsubs_calls) + 1 && g.route_system == ((ps_priv_t *)data)->msg.system
+          && g.route_sender == (const void *)((ps_priv_t *)data)->msg.sender && g.route_topic == ((ps_priv_t *)data)->msg.topic && g.route_data == ((ps_priv_t *)data)->msg.data)
+;
+V_CONTRACT
+int m_map_iterate(const m_map_t *m, m_map_cb fn, void *userptr)
+V_REQUIRES(m == (const m_map_t *)g_tab && fn == tell_if && userptr != NULL && V_R_OK(userptr, sizeof(ps_priv_t)))
+V_ASSIGNS(g.iterate_calls, g.route_system, g.route_sender, g.route_topic, g.route_data)
+V_ENSURES(V_RET == 0 && g.iterate_calls == V_OLD(g.iterate_calls) + 1 && g.route_system == ((ps_priv_t *)userptr)->msg.system
+          && g.route_sender == (const void *)((ps_priv_t *)userptr)->msg.sender && g.route_topic == ((ps_priv_t *)userptr)->msg.topic && g.route_data == ((ps_priv_t *)userptr)->msg.data)
+;
+/* is the topic on the reserved prefix? (string comparison abstracted to the ghost answer of this pre-state) */
+V_CONTRACT size_t v_strlen(const char *s) V_REQUIRES(s != NULL) V_ASSIGNS() V_ENSURES(V_RET == 10);
+V_CONTRACT int v_strncmp(const char *a, const char *b, size_t n) V_REQUIRES(a == g_topic && b != NULL && n == 10) V_ASSIGNS() V_ENSURES((V_RET == 0) == g_exact);
+#define V_PUB_OK  (V_G_MOD(mod) && !(g_mod->flags & M_MOD_DENY_PUB) && V_OLD(g_mod->tb.tokens) > 0)
+#ifdef V_PUBLISH_UNIT
+V_CONTRACT
+int m_mod_ps_publish(m_mod_t *mod, const char *topic, const void *message, m_ps_flags flags)
+V_REQUIRES(v_base_ok() && mod == g_mod && V_RW_OK(g_mod, sizeof(m_mod_t)) && v_state_valid(g_mod->state) && g_mod->ctx == g_ctx && V_RW_OK(g_ctx, sizeof(m_ctx_t)) && g_ctx->modules == (m_map_t *)g_tab
+           && (topic == NULL || topic == g_topic) && g_mod->stats.sent_msgs < UINT64_MAX)
+V_ASSIGNS(V_G_MOD(mod): g_mod->tb.tokens, g_mod->stats.last_seen, g_mod->stats.action_ctr, g.fetch_calls, g_mod->stats.sent_msgs, g.tellif_calls, g.route_key, g.route_to, g.route_system, g.route_sender,
+          g.route_topic, g.route_data, g.tellsubs_calls, g.iterate_calls)
+/* a reserved (system) topic is never published by a module */
+V_ENSURES(V_IMP(V_G_MOD(mod) && !(g_mod->flags & M_MOD_DENY_PUB) && topic != NULL && g_exact, V_RET == -EPERM && g.tellsubs_calls == V_OLD(g.tellsubs_calls) && g.iterate_calls == V_OLD(g.iterate_calls)
+                && g_mod->tb.tokens == V_OLD(g_mod->tb.tokens)))                                                                              /*@C15.reserved-system-topic-always-refused*/
+/* an accepted publish is handed to the subscribers of exactly that topic, once; without a topic it is a broadcast: one pass over every module of the sender's context;
+ * in both cases as a user message naming the sender and carrying the caller's payload pointer */
+V_ENSURES(V_IMP(V_PUB_OK && message != NULL && topic != NULL && !g_exact, V_RET == 0 && g.tellsubs_calls == V_OLD(g.tellsubs_calls) + 1 && g.iterate_calls == V_OLD(g.iterate_calls)
+                && g.tellif_calls == V_OLD(g.tellif_calls)))                                                                                 /*@C02.publish-goes-to-the-subscribers-of-its-topic-once*/
+V_ENSURES(V_IMP(V_PUB_OK && message != NULL && topic == NULL, V_RET == 0 && g.iterate_calls == V_OLD(g.iterate_calls) + 1 && g.tellsubs_calls == V_OLD(g.tellsubs_calls)
+                && g.tellif_calls == V_OLD(g.tellif_calls)))                                                                                 /*@C02.broadcast-visits-every-module-of-the-context-once*/
+V_ENSURES(V_IMP(V_PUB_OK && message != NULL && !(topic != NULL && g_exact), !g.route_system && g.route_sender == (const void *)g_mod && g.route_topic == topic && g.route_data == message
+                && g_mod->stats.sent_msgs == V_OLD(g_mod->stats.sent_msgs) + 1 && g_mod->tb.tokens == V_OLD(g_mod->tb.tokens) - 1))          /*@C02.message-names-its-sender-and-carries-the-payload*/
+V_ENSURES(V_IMP(V_PUB_OK && message == NULL && !(topic != NULL && g_exact), V_RET == -EINVAL && g.tellsubs_calls == V_OLD(g.tellsubs_calls) && g.iterate_calls == V_OLD(g.iterate_calls)))
+;
+#endif
+#ifdef V_TELL_UNIT
+V_CONTRACT
+int m_mod_ps_tell(m_mod_t *mod, const m_mod_t *recipient, const void *message, m_ps_flags flags)
+V_REQUIRES(v_base_ok() && mod == g_mod && V_RW_OK(g_mod, sizeof(m_mod_t)) && v_state_valid(g_mod->state) && g_mod->ctx == g_ctx && V_RW_OK(g_ctx, sizeof(m_ctx_t))
+           && (recipient == NULL || V_R_OK(recipient, sizeof(m_mod_t))) && g_mod->stats.sent_msgs < UINT64_MAX)
+V_ASSIGNS(V_G_MOD(mod): g_mod->tb.tokens, g_mod->stats.last_seen, g_mod->stats.action_ctr, g.fetch_calls, g_mod->stats.sent_msgs, g.tellif_calls, g.route_key, g.route_to, g.route_system, g.route_sender,
+          g.route_topic, g.route_data, g.tellsubs_calls, g.iterate_calls)
+/* a message cannot be addressed to a module of another context */
+V_ENSURES(V_IMP(V_G_MOD(mod) && !(g_mod->flags & M_MOD_DENY_PUB) && recipient != NULL && recipient->ctx != g_mod->ctx, V_RET == -EINVAL && g.tellif_calls == V_OLD(g.tellif_calls)
+                && g_mod->tb.tokens == V_OLD(g_mod->tb.tokens)))                                                                              /*@C14.message-cannot-be-addressed-to-a-module-of-another-context*/
+/* an accepted tell goes to exactly its recipient, once, as a user message without topic naming the sender */
+V_ENSURES(V_IMP(V_PUB_OK && recipient != NULL && recipient->ctx == g_mod->ctx && message != NULL, V_RET == 0 && g.tellif_calls == V_OLD(g.tellif_calls) + 1 && g.route_key == NULL
+                && g.route_to == (const void *)recipient && !g.route_system && g.route_sender == (const void *)g_mod && g.route_topic == NULL && g.route_data == message
+                && g.tellsubs_calls == V_OLD(g.tellsubs_calls) && g.iterate_calls == V_OLD(g.iterate_calls)))                                  /*@C02.tell-reaches-exactly-its-recipient*/
+;
+#endif
+V_CONTRACT
+int tell_system_pubsub_msg(const m_mod_t *recipient, m_ctx_t *c, m_mod_t *sender, const char *topic)
+V_REQUIRES(v_base_ok() && c == g_ctx && V_RW_OK(g_ctx, sizeof(m_ctx_t)) && g_ctx->modules == (m_map_t *)g_tab && topic != NULL && (sender == NULL || (sender == g_mod && V_RW_OK(g_mod, sizeof(m_mod_t))))
+           && (recipient == NULL || V_R_OK(recipient, sizeof(m_mod_t))) && g_mod->stats.sent_msgs < UINT64_MAX)
+V_ASSIGNS(g.tellif_calls, g.route_key, g.route_to, g.route_system, g.route_sender, g.route_topic, g.route_data, g.tellsubs_calls, g.iterate_calls; sender != NULL: g_mod->stats.sent_msgs)
+/* a notification with a recipient (the poison pill) goes to exactly that module, as a direct tell; one without goes to the subscribers of its topic -- exactly one publication,
+ * whatever the state of the context (in particular whatever the number of RUNNING modules: PAUSED subscribers are legitimate recipients) */
+V_ENSURES(V_RET == 0 && V_IMP(recipient != NULL, g.tellif_calls == V_OLD(g.tellif_calls) + 1 && g.route_key == NULL && g.route_to == (const void *)recipient && g.tellsubs_calls == V_OLD(g.tellsubs_calls)
+                              && g.iterate_calls == V_OLD(g.iterate_calls)))                                                                  /*@C08.pill-told-directly-to-its-recipient*/
+V_ENSURES(V_IMP(recipient == NULL, g.tellsubs_calls == V_OLD(g.tellsubs_calls) + 1 && g.tellif_calls == V_OLD(g.tellif_calls) && g.iterate_calls == V_OLD(g.iterate_calls)))   /*@C19.one-publication-per-notification-whatever-the-running-count*/
+/* it is flagged as a system message, names the module it is about, carries the topic and no payload */
+V_ENSURES(g.route_system && g.route_sender == (const void *)sender && g.route_topic == topic && g.route_data == NULL)                          /*@C19.notification-is-a-system-message-naming-its-module*/
+V_ENSURES(V_IMP(sender != NULL, g_mod->stats.sent_msgs == V_OLD(g_mod->stats.sent_msgs) + 1))
+;
+#endif
